@@ -358,9 +358,19 @@ func (s *Stats) ObserveRun(cfg sim.Config, r sim.Result) {
 			}
 		case "PANIC":
 			s.Count("host_panics", 1)
+		case "GO":
+			s.Count("sched.goroutines_started_by_the_program", 1)
+		case "FIRE":
+			s.Count("sched.timers_fired", 1)
+		case "JUMP":
+			s.Count("sched.time_jumps_while_every_task_waited", 1)
 		case "BUDGET":
 			s.Count("budget_exceeded", 1)
 		}
+	}
+	if r.Switches > 0 {
+		s.Count("sched.task_switches", int64(r.Switches))
+		s.Seen("interleavings", fmt.Sprintf("%d/%d/%s", cfg.SchedSeed, cfg.SchedQuantum, shape(r)))
 	}
 	if multi {
 		s.Count("reach.read_returned_more_than_one_line", 1)
